@@ -557,6 +557,33 @@ impl DocModel {
     ))
   }
 
+  /// `attach → Ok(false)` ("was not attached"): the relationship already holds an entry under the id of a
+  /// general-purpose method the query matches. (Any matching method will do: which one a fragment-only query picks
+  /// among several is not modelled.)
+  pub fn explains_attach_false(&self, query: &str, rel: Rel) -> Result<String, Unexplained> {
+    let candidates = self.general_matches(query);
+    match candidates.iter().find(|x| self.rels[rel.index()].contains_key(*x)) {
+      Some(x) => Ok(x.clone()),
+      None => Err(format!(
+        "{rel:?} holds no entry under the id of any general-purpose method matching {query:?} (candidates {candidates:?}), so there was something to attach"
+      )),
+    }
+  }
+
+  /// `detach → Ok(false)` ("nothing removed"): some general-purpose method the query matches is not referenced in `rel`.
+  pub fn explains_detach_false(&self, query: &str, rel: Rel) -> Result<String, Unexplained> {
+    let candidates = self.general_matches(query);
+    match candidates
+      .iter()
+      .find(|x| self.rels[rel.index()].get(*x) != Some(&Entry::Refer))
+    {
+      Some(x) => Ok(x.clone()),
+      None => Err(format!(
+        "every general-purpose method matching {query:?} (candidates {candidates:?}) is referenced in {rel:?}, so there was a reference to remove"
+      )),
+    }
+  }
+
   /// `detach → Ok(true)`: pre − a reference, in `rel`, to one general-purpose method the query matches.
   pub fn explains_detach(&self, query: &str, rel: Rel, post: &DocModel) -> Result<String, Unexplained> {
     let candidates = self.general_matches(query);
